@@ -428,12 +428,15 @@ func (a *analysis) plan(in *Injector) *InjPlan {
 	visit = func(t *Ty) bool {
 		k := t.Key(p)
 		switch state[k] {
-		case 1:
+		case 1, 3:
 			return true
 		case 2:
 			return false
 		}
 		pv := si.prov[k]
+		if pv != nil {
+			state[k] = 3
+		}
 		if pv == nil {
 			state[k] = 2
 			pl.Problems = append(pl.Problems, Problem{Class: "missing", Ty: t, Inj: in.Name, Text: "no provider for " + k})
